@@ -627,6 +627,8 @@ enum Src {
     Forged(usize, Forgery),
     /// corrupted trace: (d, choice, row, col), proven lazily with the lenient knob
     Bad(usize, usize, usize, usize),
+    /// honest trace of length 2^d, quotient polynomial of challenge j perturbed (knob H3b)
+    Perturb(usize, usize),
 }
 
 struct Case {
@@ -758,6 +760,12 @@ fn prepare(ctx: &Ctx, fam: &[Member], o: &Outer, dp: &Depth) -> Prepared {
                 pr.cases.push(Case { name: format!("{name}|d{d}|bad-trace r{r} c{c}"), kind: "bad-trace", what: "bad-trace".into(), src: Src::Bad(d, 1, r, c), arg: d, honest: 0 });
             }
         }
+        // transcript-consistent proofs whose quotient identity is false for exactly one challenge index
+        if def.degree > 0 {
+            for j in 0..o.ssc.num_challenges {
+                pr.cases.push(Case { name: format!("{name}|d{d}|quotient of challenge {j} perturbed"), kind: "perturbed-quotient", what: "perturbed-quotient".into(), src: Src::Perturb(d, j), arg: d, honest: 0 });
+            }
+        }
         // forged proof of a false statement (padded mode, lengths whose last FRI layer fits the final-polynomial targets)
         if o.vparams.is_some() {
             pr.cases.push(Case { name: format!("{name}|d{d}|forged false statement (full interpolant of the last FRI layer as final polynomial)"), kind: "forged-full-interpolant", what: "forged-full-interpolant".into(), src: Src::Forged(d, Forgery::FullInterpolant), arg: d, honest: 0 });
@@ -882,6 +890,19 @@ fn run_case(ctx: &Ctx, o: &Outer, pr: &Prepared, c: &Case) -> Result<String, (St
                     &owned
                 }
                 Err(_) => return Ok(format!("{}:not-constructible", c.what)),
+            }
+        }
+        Src::Perturb(d, j) => {
+            let (rows, pis) = o.gen.trace(1 << d, 0);
+            starky::verif_hooks::knobs::set_quotient_perturb(Some((j, 1)));
+            let out = prove_with(&o.def, &o.ssc, &rows, &pis, true, o.vparams.clone());
+            starky::verif_hooks::knobs::set_quotient_perturb(None);
+            match out {
+                ProveOutcome::Proof(p) => {
+                    owned = *p;
+                    &owned
+                }
+                ProveOutcome::Err(e) | ProveOutcome::Panic(e) => return Ok(format!("perturbed-quotient:noproof:{}", error_class(&e))),
             }
         }
         Src::Bad(d, ch, r, col) => {
